@@ -75,7 +75,8 @@ var c02SNIClasses = []string{"valid", "upper", "padded", "ulabel", "alabel", "em
 
 // certificate states: where the bundle of the handshake's name is, and its validity class
 var c02States = []string{"absent", "stored-valid", "stored-window", "stored-expired", "cached-valid", "cached-window",
-	"cached-expired", "cached-revoked", "cached-revoked-kc", "cached-window-nostore", "cached-expired-nostore", "wild-stored"}
+	"cached-expired", "cached-revoked", "cached-revoked-kc", "cached-window-nostore", "cached-expired-nostore", "wild-stored",
+	"wild-cached-window", "wild-cached-window-nostore"}
 
 type c02Env struct {
 	st      *vMem
@@ -182,6 +183,19 @@ func c02Prepare(t *testing.T, ca *vCA, e *c02Env, c c02Case, hello *tls.ClientHe
 	}
 	switch {
 	case c.state == "absent":
+	case strings.HasPrefix(c.state, "wild-cached"):
+		// the certificate that serves the name is a cached managed WILDCARD (due; its bundle possibly
+		// gone from storage): the policy is asked about the handshake's name, not the wildcard's
+		w := hsWild(name)
+		b := hsMakeBundle(ca, w, validity, c.ari)
+		hsStoreBundle(e.st, e.iss.IssuerKey(), w, b)
+		e.cur = b.leaf
+		if _, err := e.cfg.CacheManagedCertificate(ctx, w); err != nil {
+			t.Fatal(err)
+		}
+		if strings.HasSuffix(c.state, "nostore") {
+			hsDeleteBundle(e.st, e.iss.IssuerKey(), w)
+		}
 	case c.state == "wild-stored":
 		w := hsWild(name)
 		b := hsMakeBundle(ca, w, validity, c.ari)
@@ -353,6 +367,9 @@ func c02Enumerate() []c02Case {
 	for _, sni := range c02SNIClasses {
 		for _, st := range c02States {
 			for _, ari := range []bool{false, true} {
+				if ari && strings.HasPrefix(st, "wild-cached") {
+					continue // (renewal information of a wildcard that serves another name: not modelled)
+				}
 				for _, pol := range []string{"fp", "fd", "ah", "am", "ae", "fdah", "fpam"} {
 					for _, mgr := range []string{"", "none"} {
 						for _, iss := range []string{"ok", "fail"} {
@@ -442,6 +459,9 @@ func TestVerifC02(t *testing.T) {
 			mgr:    []string{"", "", "none"}[rng.Intn(3)],
 			ari:    rng.Intn(3) == 0,
 			iss:    []string{"ok", "ok", "fail", "flaky"}[rng.Intn(4)],
+		}
+		if strings.HasPrefix(c.state, "wild-cached") {
+			c.ari = false
 		}
 		steps := 2 + rng.Intn(3)
 		flips := make([]int, steps)
